@@ -17,9 +17,13 @@ func runChecks() {
 		mk   func(t *schema.Table) schema.Change
 	}
 	els := []el{
-		{"add-named-ck_a", func(t *schema.Table) schema.Change { return &schema.AddCheck{C: schema.NewCheck().SetName("ck_a").SetExpr("id > 0")} }},
+		{"add-named-ck_a", func(t *schema.Table) schema.Change {
+			return &schema.AddCheck{C: schema.NewCheck().SetName("ck_a").SetExpr("id > 0")}
+		}},
 		{"add-unnamed", func(t *schema.Table) schema.Change { return &schema.AddCheck{C: schema.NewCheck().SetExpr("id > 1")} }},
-		{"add-named-ck_b", func(t *schema.Table) schema.Change { return &schema.AddCheck{C: schema.NewCheck().SetName("ck_b").SetExpr("id > 2")} }},
+		{"add-named-ck_b", func(t *schema.Table) schema.Change {
+			return &schema.AddCheck{C: schema.NewCheck().SetName("ck_b").SetExpr("id > 2")}
+		}},
 		{"add-column", func(t *schema.Table) schema.Change {
 			return &schema.AddColumn{C: &schema.Column{Name: "extra", Type: t.Columns[0].Type}}
 		}},
